@@ -907,9 +907,15 @@ func (cr *clRun) judgeIO(o *ioOp) {
 // reply back to the controller before the operation returned (otherwise the
 // controller legitimately saw a failure).
 func allAppliedReplied(o *ioOp, applied map[string]bool, cr *clRun) bool {
+	// a success reply counts only if it answers this operation's own request frame
+	// on that connection (ping replies travel on the same connection)
+	reqSeq := map[string]uint32{}
+	for _, q := range o.frames {
+		reqSeq[q.conn.Key()] = q.f.Seq
+	}
 	okReply := map[string]bool{}
 	for _, r := range o.replies {
-		if r.f.Type == tResponse {
+		if seq, ok := reqSeq[r.conn.Key()]; ok && r.f.Type == tResponse && r.f.Seq == seq {
 			okReply[cr.addrOf(r.target)] = true
 		}
 	}
